@@ -34,7 +34,7 @@ func init() {
 		ID:    "C10",
 		Level: "exploration",
 		Rule: "exhaustive: every sequence over {a,c,g,t,n} of length 5..7 (quick) / 5..9 (thorough) at k=4 with all 256 words and all sub-ranges; random: sequences of 5..5000 letters over acgtACGT (DNA, RNA, a case-sensitive custom alphabet) " +
-			"with runs of non-alphabet bytes, k=4..10 (thorough ..12), random sub-ranges and words; oracle = string scanning. Non-trivial = at least one valid window and (for random cases) at least one invalid letter or repeated word; distinct = sequence text + k",
+			"with runs of non-alphabet bytes, k=4..10 (thorough ..12), random sub-ranges and words; the index also walks a second sequence (reversed, rotated, other first letters); a hostile caller overwrites and appends to a quarter of the answers before every present word is queried again; oracle = string scanning. Non-trivial = at least one valid window and (for random cases) at least one invalid letter or repeated word; distinct = sequence text + k",
 		Batches: func(t string) int {
 			if t == "thorough" {
 				return 16
